@@ -173,6 +173,8 @@ pub fn gen_key(r: &mut Rng) -> String {
 pub const ALG_VOCABULARY: &[&str] = &[
     "sha", "sha1", "sha2", "sha256", "sha-1", "sha512", "sha512-256", "sha3", "sha3-512", "md5", "md5.1", "blake2", "blake2b",
     "blake2b-256", "1", "", "a", "a0", "a:", "ασ", "οδοσ", "σ", "ασα",
+    // distinct names that coincide once upper-cased (a case-insensitive sort would tie them)
+    "ſha1", "gross", "groß", "ǆ", "ᾳ", "αι",
 ];
 
 pub fn gen_alg(r: &mut Rng) -> String {
